@@ -1,8 +1,9 @@
 """C04 — nonce sequencing (DESIGN §5 C04: R04.1 … R04.7)."""
-from ..prov import get_an, pp, strip_generics, contains
+from ..prov import get_an, pp, strip_generics, contains, walk
 from .common import (switch_on, all_ans, adt_field_stores, adt_field_mut_borrows, aggregates_of, is_ok_agg, enumerate_paths,
                      switch_edge, uses_of_local_blocks, addr_fields, load_path_fields, where, hpke_variant,
                      is_err_agg, site_reaches, ret_classes, result_err_variants)
+from .common import HPKE_ERR
 from .aeadctx import (aead_sites, SiteInfo, check_nonce_helper, field_ref_of_self, CTX_ADT, is_zero_init)
 
 EXPLANATION = (
@@ -97,10 +98,132 @@ def check_site(rep, facts, si, role):
             if tb is not None and (s[0] == tb or s[0] in a.cfg.fwd(tb)) and not a.cfg.edge_dominates(fsrc, ftgt, s[0]):
                 refusal.append((s, t, cls))
         okr = len(refusal) == 1 and refusal[0][2] == ('err', frozenset(['MessageLimitReached']))
+        if not okr and tb is not None:
+            # returns shared by several paths (a re-wrapping join at the end): decide per path — every path that takes the
+            # overflowed edge returns exactly Err(MessageLimitReached)
+            try:
+                from ..booldec import paths_with_constraints, Undecidable
+                from ..prov import strip_sites
+                want = ('agg', 'adt', 'core::result::Result::Err', (('agg', 'adt', HPKE_ERR + '::MessageLimitReached', (), ()),), ('0',))
+                pr = [strip_sites(rt) for cons, rt, rs, path in paths_with_constraints(a, with_path=True)
+                      if any(path[i] == obi and path[i + 1] == tb for i in range(len(path) - 1))]
+                if pr and all(x == want for x in pr):
+                    okr = True
+                    refusal = []
+                    rep.note('%s: refusal value decided per path (%d path(s) through the overflowed edge)' % (fn, len(pr)))
+            except Undecidable:
+                pass
         rep.check(okr, R(3), fn, 'refusal-value', '; '.join(pp(t) for _, t, _ in refusal) or 'none',
                   'Err(MessageLimitReached) on the overflowed branch', where(a, refusal[0][0]) if refusal else where(a))
     # ---- R04.4 increment after success, exactly once on Ok paths, never on Err paths
     check_effects(rep, facts, si, R(4), role)
+
+
+def effects_by_paths(rep, facts, si, rule, role, as_rule=None):
+    """The AEAD result is inspected by more than one branch (`match (next_seq, &res)`, a re-built Result tested again): decide the
+    same obligations per *path*.  Every acyclic path of the body is enumerated with consistent outcomes of repeated tests (a value
+    rebuilt on the path has the variant it was built with); on each feasible path that runs the AEAD call:
+      verdict Err  -> no counter write, an Err is returned;      verdict Ok, next = Some -> exactly one write, self.seq = next;
+      verdict Ok, next = None -> exactly one write, overflowed = true;   and Ok is returned only on verdict-Ok paths.
+    Paths that do not run the AEAD call (the refusal) write nothing.  -> True if every obligation held."""
+    from ..booldec import paths_with_constraints, Undecidable
+    from ..prov import strip_sites
+    a, fn = si.a, si.key
+    RR = as_rule or ('R05.3' if role == 'open' else rule)
+    W = [(s, f, st) for s, f, st in si.stores if f in ('seq', 'overflowed')]
+    try:
+        paths = paths_with_constraints(a, with_path=True)
+    except Undecidable as e:
+        rep.undecided(rule, fn, 'verdict-paths', str(e), 'an acyclic sealing/opening body', where(a, si.point))
+        return False
+    site_bi = si.bi
+
+    def from_aead(t):
+        for x in walk(t):
+            if isinstance(x, tuple) and x and x[0] == 'call' and x[1].endswith(si.method):
+                return True
+        return False
+
+    def from_inc(t):
+        for x in walk(t):
+            if isinstance(x, tuple) and x and x[0] == 'call' and len(x) > 2 and (_is_seq_checked_add_nosite(x) or
+                    (len(x[2]) == 1 and field_ref_of_self(x[2][0], 'seq') and x[1] not in ('core::clone::Clone::clone',))):
+                return True
+        return False
+
+    def allowed(v, k):
+        if isinstance(v, frozenset):
+            return v == frozenset([k])
+        return isinstance(v, tuple) and v[0] == 'not' and k not in v[1] and len(v[1]) >= 1 and False
+    ok_all = True
+    n_ok = n_err = 0
+    for cons, rt, rsite, path in paths:
+        ran = site_bi in path
+        verdict = None
+        inc = None
+        for atom, v in cons.items():
+            d = atom
+            if d[0] == 'discr':
+                x = d[1][1] if d[1][0] == 'try' else d[1]
+                vals = v if isinstance(v, frozenset) else None
+                if from_aead(x) and not from_inc(x):
+                    ok_ = (vals == frozenset([0])) if vals is not None else (isinstance(v, tuple) and 0 not in v[1] and False)
+                    this = 'Ok' if vals == frozenset([0]) else 'Err'
+                    if verdict is not None and verdict != this:
+                        verdict = 'conflict'
+                    else:
+                        verdict = this
+                elif from_inc(x):
+                    this = 'Some' if vals == frozenset([1]) else 'None'
+                    inc = this if inc in (None, this) else 'conflict'
+            elif d[0] == 'call' and d[1] in ('core::result::Result::is_err', 'core::result::Result::is_ok') and from_aead(d):
+                truth = not (isinstance(v, frozenset) and v == frozenset([0]))
+                this = ('Err' if truth else 'Ok') if d[1].endswith('is_err') else ('Ok' if truth else 'Err')
+                verdict = this if verdict in (None, this) else 'conflict'
+        if verdict == 'conflict' or inc == 'conflict':
+            continue                    # infeasible: the same outcome tested both ways
+        writes = [(s, f, st) for s, f, st in W if s[0] in path]
+        cls = None
+        for s2, t2, c2 in si.classes:
+            pass
+        is_ok = rt[0] == 'agg' and rt[2] == 'core::result::Result::Ok'
+        is_err = (rt[0] == 'agg' and rt[2] == 'core::result::Result::Err') or rt[0] == 'from_residual'
+        desc = 'path %s: AEAD %s, verdict=%s, next=%s, writes=%s, returns %s' % (
+            '->'.join(str(b) for b in path[:3]) + '..', 'run' if ran else 'not run', verdict, inc, [f for _, f, _ in writes], 'Ok' if is_ok else ('Err' if is_err else pp(rt)[:40]))
+        good = True
+        if not ran:
+            good = not writes and is_err
+        elif verdict == 'Err':
+            good = not writes and is_err
+            n_err += 1
+        elif verdict == 'Ok':
+            n_ok += 1
+            if inc == 'Some':
+                good = is_ok and len(writes) == 1 and writes[0][1] == 'seq'
+            elif inc == 'None':
+                good = is_ok and len(writes) == 1 and writes[0][1] == 'overflowed'
+            else:
+                good = False
+        else:
+            good = False               # the AEAD ran and its result was not inspected on this path
+        if not good:
+            ok_all = False
+            rep.bad(RR, fn, 'path-effects', desc,
+                    'verdict Err: no counter write and an Err; verdict Ok: Ok and exactly one write (seq on Some, overflowed on None); '
+                    'no AEAD call: no write and an Err', where(a, rsite if isinstance(rsite, tuple) else si.point))
+    if ok_all:
+        rep.ok(RR, fn, 'path-effects',
+               '%d feasible path(s): %d with verdict Ok, %d with verdict Err — effects and results as required on each' % (len(paths), n_ok, n_err))
+    rep.check(n_ok >= 1 and n_err >= 1, RR, fn, 'both-verdicts-reachable', 'Ok paths: %d, Err paths: %d' % (n_ok, n_err),
+              'the body has a success path and a failure path after the AEAD call', where(a, si.point))
+    return ok_all and n_ok >= 1 and n_err >= 1
+
+
+def _is_seq_checked_add_nosite(c):
+    if not (c[0] == 'call' and c[1] == 'core::num::<impl u64>::checked_add' and len(c[2]) == 2 and c[2][1] == ('const', 'u64', 1)):
+        return False
+    b, fs = load_path_fields(c[2][0])
+    return b == ('param', 1) and fs in (['0', 'seq', '0'], ['seq', '0'])
 
 
 def check_effects(rep, facts, si, rule, role):
@@ -111,6 +234,31 @@ def check_effects(rep, facts, si, rule, role):
               'no write to base_nonce/encryptor/exporter_secret/suite_id after construction', where(a, other[0][0]) if other else where(a))
     rep.check(not si.borrows, rule, fn, 'no-mut-borrow-of-fields', '%s' % [(f, a.line_at(s)) for s, f, _ in si.borrows],
               'no &mut of a context field escapes', where(a, si.borrows[0][0]) if si.borrows else where(a))
+    if si.verdict is None and len(si.verdict_cands) > 1:
+        # several branches look at the result: decided per path instead of by dominance
+        si.path_decided = effects_by_paths(rep, facts, si, rule, role)
+        for s, f, st in W:
+            v = a.val_rv(st['rv'], s) if st['k'] == 'assign' else ('unknown', 'call dest')
+            if f == 'overflowed':
+                rep.check(v == ('const', 'bool', True), 'R04.6', fn, 'latch-monotone', 'self.overflowed = %s' % pp(v),
+                          'outside the constructor `overflowed` is only ever set to true', where(a, s))
+            else:
+                src = v
+                okp = False
+                if src[0] == 'field' and src[1] == '0' and src[2][0] == 'variant' and src[2][1] == 'Some':
+                    c = src[2][2]
+                    okp = c[0] == 'call' and len(c[2]) == 1 and field_ref_of_self(c[2][0], 'seq') and bool(c[4] and c[4][3])
+                    if okp:
+                        si.__dict__.setdefault('inc_calls', {})[c[4][3]] = c
+                if not okp and src[0] == 'agg' and src[2] == 'aead::Seq::Seq' and len(src[3]) == 1:
+                    pv = src[3][0]
+                    if pv[0] == 'field' and pv[1] == '0' and pv[2][0] == 'variant' and pv[2][1] == 'Some' and _is_seq_checked_add(pv[2][2]):
+                        okp = True
+                        si.__dict__.setdefault('direct_incs', []).append(pv[2][2])
+                rep.check(okp, rule, fn, 'seq-update-value', 'self.seq = %s' % pp(v), 'self.seq = Some-payload of increment(&self.seq)', where(a, s))
+        si.__dict__.setdefault('inc_calls', {})
+        si.__dict__.setdefault('direct_incs', [])
+        return
     if si.verdict is None:
         rep.bad('R05.3' if role == 'open' else rule, fn, 'verdict-switch', '%d candidate branch(es) on the AEAD result' % len(si.verdict_cands),
                 'exactly one branch inspects the AEAD result (?, match, is_err/is_ok)', where(a, si.point))
